@@ -88,6 +88,36 @@ def check_reference(system, mode, cls, vals, outcome):
     for td, dc in outgoing(system, path[-1], mode):
         if accepts(system, td, dc, cls, cur) is True:
             return f"stopped at {path[-1]} although relation {path[-1]}->{td['id']} accepts {cur}"
+    # the state: exactly the guards the greedy walk evaluates (successors in the graph's order, up to and including
+    # the first that accepts) and the transformers it applies have written to it, in that order
+    succ = system.get("_succ", {}).get(mode)
+    if succ is not None:
+        want, cur = [], list(vals)
+        try:
+            for i, a in enumerate(path):
+                nxt = path[i + 1] if i + 1 < len(path) else None
+                for v in succ.get(a, []):
+                    rel = [(td, dc) for td, dc in outgoing(system, a, mode) if td["id"] == v]
+                    if not rel:
+                        raise LookupError
+                    td, dc = rel[-1]
+                    g = dc["guard"] if dc["guard"] is not None else td["contains"]
+                    ok = spec_guard(g, cls, cur, want)
+                    if ok:
+                        if v != nxt:
+                            return f"at {a} the first accepting successor in graph order is {v}, the walk went to {nxt}"
+                        if dc["trans"] is not None:
+                            t = dict(dc["trans"]).get(cls, dict(dc["trans"]).get(-1))
+                            if t["tlogs"] is not None:
+                                want.append(t["tlogs"])
+                        cur = apply_trans(dc, cls, cur)
+                        break
+                    if v == nxt:
+                        raise LookupError
+        except Exception:  # noqa   (something this oracle cannot evaluate: leave the state unjudged)
+            want = None
+        if want is not None and list(log) != want:
+            return f"state log {list(log)} differs from what the documented walk writes, {want} (guards evaluated that the walk does not evaluate, or in another order)"
     return None
 
 
